@@ -18,6 +18,7 @@ import (
 	"github.com/bluenviron/gortsplib/v5/pkg/conn"
 	"github.com/bluenviron/gortsplib/v5/pkg/description"
 	"github.com/bluenviron/gortsplib/v5/pkg/format"
+	"github.com/bluenviron/gortsplib/v5/pkg/liberrors"
 
 	"verifharness/internal/vt"
 )
@@ -41,6 +42,10 @@ type ServerCfg struct {
 	// Hooks called from handlers (may be nil).
 	OnPacket func(ss *gortsplib.ServerSession, medi *description.Media, forma format.Format, pkt any)
 	Extra    func(s *gortsplib.Server)
+	// AuthCheck, when set, is consulted by the describe / setup / announce handlers: when it
+	// returns false the handler answers 401 with liberrors.ErrServerAuth{} (as
+	// /repo/examples/server-auth does). Typically it calls sc.VerifyCredentials(req, user, pass).
+	AuthCheck func(sc *gortsplib.ServerConn, req *base.Request) bool
 }
 
 // Bed is a running server with its stream.
@@ -140,6 +145,9 @@ func (m mSess) OnSessionClose(ctx *gortsplib.ServerHandlerOnSessionCloseCtx) {
 type mDescribe struct{ *core }
 
 func (m mDescribe) OnDescribe(ctx *gortsplib.ServerHandlerOnDescribeCtx) (*base.Response, *gortsplib.ServerStream, error) {
+	if ac := m.b.Cfg.AuthCheck; ac != nil && !ac(ctx.Conn, ctx.Request) {
+		return &base.Response{StatusCode: base.StatusUnauthorized}, nil, liberrors.ErrServerAuth{}
+	}
 	if h := m.b.OnDescribeHook; h != nil {
 		h(ctx)
 	}
@@ -149,6 +157,9 @@ func (m mDescribe) OnDescribe(ctx *gortsplib.ServerHandlerOnDescribeCtx) (*base.
 type mAnnounce struct{ *core }
 
 func (m mAnnounce) OnAnnounce(ctx *gortsplib.ServerHandlerOnAnnounceCtx) (*base.Response, error) {
+	if ac := m.b.Cfg.AuthCheck; ac != nil && !ac(ctx.Conn, ctx.Request) {
+		return &base.Response{StatusCode: base.StatusUnauthorized}, liberrors.ErrServerAuth{}
+	}
 	if h := m.b.OnAnnounceHook; h != nil {
 		h(ctx)
 	}
@@ -158,6 +169,9 @@ func (m mAnnounce) OnAnnounce(ctx *gortsplib.ServerHandlerOnAnnounceCtx) (*base.
 type mSetup struct{ *core }
 
 func (m mSetup) OnSetup(ctx *gortsplib.ServerHandlerOnSetupCtx) (*base.Response, *gortsplib.ServerStream, error) {
+	if ac := m.b.Cfg.AuthCheck; ac != nil && !ac(ctx.Conn, ctx.Request) {
+		return &base.Response{StatusCode: base.StatusUnauthorized}, nil, liberrors.ErrServerAuth{}
+	}
 	if h := m.b.OnSetupHook; h != nil {
 		h(ctx)
 	}
